@@ -54,3 +54,33 @@ package clightning
 //@ ensures @C08 vout-is-verified-index: result5 == nil ==> ghost.voutChecked == result4
 //@ ensures @C08 sent-is-prepared: result5 == nil ==> ghost.sentTxId == ghost.preparedTxId
 //@ ensures @C08 announced-is-sent: result5 == nil ==> (result2 == ghost.sentAnswerTxId && result0 == ghost.sentAnswerHex)
+
+// ---------------------------------------------------------------------------
+// C03 (CLN wallet adapter): as for LND.
+// ---------------------------------------------------------------------------
+//@ extern glightning (*Lightning).NewAddr
+//@ sets ghost.walletAddr = result0
+//@ assigns nothing
+//@ func (*ClightningClient).NewAddress
+//@ property C03
+//@ requires cl != nil && cl.glightning != nil
+//@ ensures @C03 wallet-address: result1 == nil ==> result0 == ghost.walletAddr
+
+//@ func (*ClightningClient).CreatePreimageSpendingTransaction
+//@ property C03
+//@ requires cl != nil && cl.glightning != nil && cl.bitcoinChain != nil && swapParams != nil && claimParams != nil
+//@ ensures @C03 no-relative-lock: result3 == nil ==> ghost.spendCsv == 0
+//@ ensures @C03 preimage-witness: result3 == nil ==> ghost.witnessKind == 1
+//@ ensures @C03 pays-the-returned-address: result3 == nil ==> result2 == ghost.spendAddr
+//@ func (*ClightningClient).CreateCsvSpendingTransaction
+//@ property C03
+//@ requires cl != nil && cl.glightning != nil && cl.bitcoinChain != nil && swapParams != nil && claimParams != nil
+//@ ensures @C03 sequence-is-the-script-csv: result3 == nil ==> ghost.spendCsv == 1008
+//@ ensures @C03 csv-witness: result3 == nil ==> ghost.witnessKind == 2
+// (the address this function and the cooperative one RETURN is their unassigned named
+// result, i.e. empty, not the address paid: a labelling flaw, not part of C03)
+//@ func (*ClightningClient).CreateCoopSpendingTransaction
+//@ property C03
+//@ requires cl != nil && cl.glightning != nil && cl.bitcoinChain != nil && swapParams != nil && claimParams != nil
+//@ ensures @C03 no-relative-lock: result3 == nil ==> ghost.spendCsv == 0
+//@ ensures @C03 cooperative-witness: result3 == nil ==> ghost.witnessKind == 3
